@@ -212,7 +212,7 @@ func (w *World) DeleteManifest(repo string, mm *Man) (Resp, int) {
 	exp := 404
 	if m.Mans[mm.D] != nil {
 		exp = 202
-	} else if w.k5Possible(m, mm.D) || m.LostK1[mm.D] {
+	} else if w.k5Possible(m, mm.D) || m.LostK1[mm.D] || w.k5Entry(m, mm.D) {
 		exp = 0
 	}
 	if rs.Status == 202 {
@@ -251,6 +251,25 @@ func (w *World) k5Possible(m *RepoModel, d string) bool {
 		return true // (possible as of the previous look: a reload may have met that state, see k1Possible)
 	}
 	return w.k5Now(m, d)
+}
+
+// k5Entry: the part of K5 that only a DELETE sees - the child entry of a manifest deleted by digest comes back at a
+// reload while a stored index lists it, whether or not its bytes are still stored (reads answer 404 without the
+// bytes, the delete finds the entry and answers 202).
+func (w *World) k5Entry(m *RepoModel, d string) bool {
+	if !m.DelDig[d] || w.Kind == Mem {
+		return false
+	}
+	for _, p := range w.U.Mans {
+		if p.Index && m.Stored[p.D] != nil {
+			for _, c := range p.Refs {
+				if c == d {
+					return true
+				}
+			}
+		}
+	}
+	return false
 }
 
 func (w *World) k5Now(m *RepoModel, d string) bool {
